@@ -63,9 +63,13 @@ def check_case(case):
     except Exception as e:
         return "CodeBuilder/DAGCode raised %s: %s" % (type(e).__name__, str(e)[:120]), info
     results = {}
+    bplan = dict(plan)
+    if ref_status == "inexact":
+        # values have left the exact domain; do not let the back ends run away (x <- x**3 on ints)
+        bplan["max_steps"] = min(plan.get("max_steps") or 99, len(ref) + 1)
     for name, runner in (("interpreter", B.run_interpreter), ("generated", B.run_generated)):
         try:
-            h, status, _ = runner(dag, method, plan)
+            h, status, _ = runner(dag, method, bplan)
         except Exception as e:
             return "%s: setting up / generating raised %s: %s" % (name, type(e).__name__, str(e)[:160]), info
         results[name] = h
